@@ -2,5 +2,7 @@
 
 pub mod compiler;
 pub mod opcode_select;
+#[cfg(vbxq_aelys_lang_verif)]
+pub mod verif;
 
 pub use compiler::{Compiler, Local, LoopContext, Scope};
